@@ -128,6 +128,7 @@ def evidence(pid, tier, seed, pr, sessions, wall, violations, known_hits):
         'extra': {k: v for s in sessions for k, v in s.get('extra', {}).items()},
         'known_findings_hit': [k['id'] for k, _ in known_hits],
         'lake_build_s': pr.get('build_s'),
+        'leanchecker': pr.get('leanchecker'),
     }
     return {
         'property_id': pid,
